@@ -109,7 +109,10 @@ def monitor(case, out):
                 continue
             why = check_valid(tr, o, x)
             if why:
-                sig = "F3-expiry-hole" if (o, x) in tr.expired_before else why.split(":")[0]
+                # finding F3 is a HOLE (V3: something at or below the reported version is missing) in a view the observer re-created
+                # after it had expired the node; anything else - also after an expiry - is reported under its own name
+                kind = why.split(":")[0]
+                sig = "F3-expiry-hole" if (o, x) in tr.expired_before and kind == "V3" else kind
                 return {"step": i, "why": why + " (observer %s)" % tr.ids[o], "sig": sig}
     return None
 
@@ -154,7 +157,18 @@ def stale_compact_witness():
     return {"id": "corpus-stale-compact", "nodes": [a, b], "ops": ops}
 
 
-CORPUS = [f3_witness(), stale_compact_witness()]
+def empty_key_witness():
+    """the owner writes the EMPTY key (the gossip API allows it) and then another one; an observer that has seen the later write
+    shows the empty key too (seeded change C02-9: the datagram decoder dropping entries without a key)"""
+    a, b = {"id": H("a"), "addr": H("10.0.0.1:7000")}, {"id": H("b"), "addr": H("10.0.0.2:7000")}
+    D = {"op": "deliver", "i": 0, "max": 1400}
+    S = {"op": "send", "a": 0, "b": 1, "max": 1400}
+    ops = [{"op": "upsert", "n": 1, "k": H(""), "v": H("v")}, {"op": "upsert", "n": 1, "k": H("k"), "v": H("w")},
+           S, D, D, D, D, S, D, D, D, D, {"op": "delete", "n": 1, "k": H("")}, {"op": "upsert", "n": 1, "k": H("k"), "v": H("x")}, S, D, D, D, D]
+    return {"id": "corpus-empty-key", "nodes": [a, b], "ops": ops}
+
+
+CORPUS = [f3_witness(), stale_compact_witness(), empty_key_witness()]
 
 
 def run(ctx):
